@@ -7,6 +7,7 @@ import (
 	"os"
 	"path/filepath"
 	"runtime/debug"
+	"runtime/pprof"
 	"time"
 )
 
@@ -202,9 +203,16 @@ func Main(sim string, run RunFunc) {
 		shrinkT  = flag.Duration("shrinktime", 60*time.Second, "max wall time while shrinking")
 		nsamples = flag.Int("samples", 3, "samples to keep")
 		known    = flag.String("known", "", "known findings: prop|key;prop|key (suppressed, counted)")
+		digLog   = flag.String("digestlog", "", "write one line 'run digest pathsig choices' per run (determinism self-test)")
 	)
+	cpuprof := flag.String("cpuprofile", "", "write cpu profile")
 	flag.Parse()
 	SetKnown(*known)
+	if *cpuprof != "" {
+		f, _ := os.Create(*cpuprof)
+		_ = pprof.StartCPUProfile(f)
+		defer pprof.StopCPUProfile()
+	}
 
 	if *replay != "" {
 		os.Exit(doReplay(sim, run, *replay, *dump))
@@ -235,6 +243,15 @@ func Main(sim string, run RunFunc) {
 	digests := map[string]struct{}{}
 	nontriv := map[string]struct{}{}
 	pathsigs := map[string]struct{}{}
+	var dlog *os.File
+	if *digLog != "" {
+		var err error
+		if dlog, err = os.Create(*digLog); err != nil {
+			fmt.Fprintln(os.Stderr, err)
+			os.Exit(2)
+		}
+		defer dlog.Close()
+	}
 	for i := 0; i < *maxRuns; i++ {
 		if time.Since(start) > *budget {
 			break
@@ -261,6 +278,13 @@ func Main(sim string, run RunFunc) {
 			sum.KnownHits[k] += n
 		}
 		d := r.Digest()
+		if dlog != nil {
+			vk := "-"
+			if v != nil {
+				vk = v.Kind
+			}
+			fmt.Fprintf(dlog, "%d %s %s %d %s\n", idx, d, r.PathSig(), len(c.Rec), vk)
+		}
 		if len(digests) < 400000 {
 			digests[d] = struct{}{}
 			if r.NonTrivial() {
